@@ -294,7 +294,7 @@ TailFromB(pt, as, j, m, adj, fault) ==
 (* is the output pattern resolvable from the map (ts_pattern_resolve # nullptr) *)
 OutClosedB(c, m, fault) == (PVars(c.o) \ (IF fault = "unbound_output_size_defaults" THEN SizeVars ELSE {})) \subseteq DOMAIN m
 
-(* rank of one parameter pattern on its own (operator_dispatch_detail::param_pattern_rank): defined with RankB below *)
+(* tailrank = the rank of the tail pattern on its own (operator_dispatch_detail::param_pattern_rank; TailRankB below) *)
 TryMatchBF(c, args, tailrank, fault) ==
     IF ~c.v
     THEN IF Len(c.ps) # Len(args) THEN [ok |-> FALSE, m |-> EmptyMap, adj |-> 0]               \* normalize_call rejects
